@@ -387,7 +387,7 @@ def s_pop_headers(vc):
     # a request without Host/:authority header whose host attribute is empty: headers.get("host", "") == request.host holds
     # vacuously and pop("host") raises KeyError
     lows = [n.lower() for n in names]
-    vc.ensure_kf("no_exception", out.ok, "KF-C48-7", And(host == "", b"host" not in lows or b":authority" not in lows))
+    vc.ensure("no_exception", out.ok)   # was KF-C48-7, fixed in 8488e828c
     if not out.ok:
         return
     post = vc.getattr(hdrs, "fields")
